@@ -143,7 +143,7 @@ func checkQuad(c quadCase) *vk.Failure {
 }
 
 func TestQuadConverge(t *testing.T) {
-	vk.Run(t, "quad-converge", vk.Opts{Quick: 1200, Thorough: 30000}, func(t *rapid.T) quadCase {
+	vk.Run(t, "quad-converge", vk.Opts{Quick: 1600, Thorough: 30000}, func(t *rapid.T) quadCase {
 		c := quadCase{Method: rapid.IntRange(0, 4).Draw(t, "method")}
 		c.Variant = rapid.IntRange(0, 5).Draw(t, "variant")
 		c.Store = rapid.IntRange(0, 10).Draw(t, "store")
